@@ -56,6 +56,22 @@ def cases_for(asts, rng, inputs_per=2):
     return cases
 
 
+def operand_lattice():
+    """whole programs `a op b` / `op a` over signed integers, floats and the i32 boundary: the final value of every
+    arithmetic, bitwise, comparison and equality operator on operands of both signs (negatives are written `-- n`)"""
+    pos = [("i", 0), ("i", 1), ("i", 2), ("i", 3), ("i", 7), ("i", 31), ("i", 32), ("i", 2147483647), ("f", 15, 1), ("f", 5, 1), ("f", 25, 1)]
+    vals = pos + [("U", "neg", x) for x in pos[1:]]
+    out = []
+    for op in X.ARITH + X.BITS + X.CMP + X.EQ:
+        for a in vals:
+            for b in vals:
+                out.append((("B", op, a, b), "lattice"))
+    for op in ("abs", "neg", "bnot"):
+        for a in vals:
+            out.append((("U", op, a), "lattice"))
+    return out
+
+
 def random_cases(n, rng, tag="rand"):
     g = X.Gen(rng)
     out = []
@@ -244,6 +260,8 @@ def run(tier, seed):
         rng = vplib.rng_for(seed, "C01")
         for ast, inp, host, tag in WITNESSES:
             cases.append(X.Case(X.relabel(ast), "min", inp, host, tag))
+        lat = operand_lattice()
+        cases += [X.Case(X.relabel(e), "min", "U", "-", tag) for e, tag in (lat if tier == "thorough" else rng.sample(lat, 2500))]
         if tier == "thorough":
             cases += cases_for(exhaustive(4, 0, rng), rng, 1)
             cases += random_cases(150000, rng)
